@@ -198,6 +198,16 @@ def main(argv):
 
     # known findings: every open finding must have been reproduced by its witness stream
     kf = vlib.load_known_findings(prop)
+    # a classified deviation counts as known ONLY while the committed file lists it as open: an unlisted id, or one
+    # recorded as fixed, is a violation again (a fixed entry suppresses nothing)
+    status = {f["id"]: f["status"] for f in kf}
+    for kid, tup in seen_known.items():
+        if status.get(kid) != "open":
+            st_, d_, o_, _ = tup
+            d2 = dict(d_) if isinstance(d_, dict) else {"req": d_ if isinstance(d_, str) else "", "history": []}
+            d2["why"] = f"deviation class {kid} ({'recorded as fixed' if status.get(kid) == 'fixed' else 'not listed in KNOWN_FINDINGS.json'}) occurs"
+            d2.setdefault("expect", "(see why)"); d2.setdefault("req", vlib.line("ml.settle"))
+            derived_violations.append((st_, d2, o_))
     for f in kf:
         if f["status"] != "open":
             continue
